@@ -463,6 +463,26 @@ func visualLength(runes []rune) int {
 	return length
 }
 
+// statementEnds returns the positions of the semicolons in line that terminate
+// a query, i.e. those that are not part of a quoted string or identifier.
+func statementEnds(line []rune) []int {
+	var ends []int
+	var quote rune
+	for i := 0; i < len(line); i++ {
+		switch ch := line[i]; {
+		case quote != 0 && ch == '\\':
+			i++ // skip escaped character
+		case quote != 0 && ch == quote:
+			quote = 0
+		case quote == 0 && (ch == '\'' || ch == '"'):
+			quote = ch
+		case quote == 0 && ch == ';':
+			ends = append(ends, i)
+		}
+	}
+	return ends
+}
+
 // handleKey processes the given key and, optionally, returns a line of text
 // that the user has entered.
 func (t *Terminal) handleKey(key rune) (line []string, ok bool) {
@@ -566,20 +586,23 @@ func (t *Terminal) handleKey(key rune) (line []string, ok bool) {
 		t.advanceCursor(visualLength(t.prompt))
 		t.setLine(t.line, t.pos)
 	case keyEnter:
-		strline := strings.TrimSpace(string(t.line))
+		// positions of the query terminators, ignoring semicolons in quotes
+		stmtEnds := statementEnds(t.line)
+		rest := t.line
+		if len(stmtEnds) > 0 {
+			rest = t.line[stmtEnds[len(stmtEnds)-1]+1:]
+		}
 		// if the last thing entered was a query terminator
-		if len(strline) == 0 || strline[len(strline)-1:] == ";" {
+		if len(strings.TrimSpace(string(rest))) == 0 {
 			// not sure what this is for
 			t.moveCursorToPos(len(t.line))
 			t.queue([]rune("\r\n"))
 
 			// split string until queries terminated by ;
 			begin := 0
-			for cur := 0; cur < len(t.line); cur++ {
-				if t.line[cur] == 59 {
-					line = append(line, strings.TrimSpace(string(t.line[begin:cur+1])))
-					begin = cur + 1
-				}
+			for _, cur := range stmtEnds {
+				line = append(line, strings.TrimSpace(string(t.line[begin:cur+1])))
+				begin = cur + 1
 			}
 
 			ok = true
